@@ -123,7 +123,7 @@ C("weightedUnion", params=WPARAMS,
   loops=[wloop("sunion(" + seen("i1") + ", " + seen("i2") + ")", UNION_VALUE),
          wloop("sunion(" + seen("i1") + ", " + seen("i2") + ")", UNION_VALUE, {"other_done": "implies(i1.active, not i2.active)"}),
          wloop("sunion(" + seen("i1") + ", " + seen("i2") + ")", UNION_VALUE, {"other_done": "not i1.active"})],
-  props=["C12"])
+  props=["C12", "C09"])
 
 INTER_ENS = dict(NONE_RULES, **{
     "weight": "implies(" + BOTH + ", (result[0] == 1) if " + MERGING + " else (result[0] == w1 + w2))",
@@ -140,4 +140,4 @@ C("weightedIntersection", params=WPARAMS,
   returns=RET, ensures=INTER_ENS, raises={},
   modifies=[], ghost={"allocates": True, "lemma_instances": dict(LEMMA_INST, **VDEFS)},
   loops=[wloop("sinter(" + seen("i1") + ", " + seen("i2") + ")", W_BOTH)],
-  props=["C12"])
+  props=["C12", "C09"])
